@@ -9,6 +9,7 @@ import (
 	"fmt"
 	"io"
 	"net"
+	"net/netip"
 	"os"
 	"strings"
 	"sync"
@@ -26,6 +27,8 @@ func init() {
 	csScenarios["writeabort-ctx-writer"] = func() zzmc.Scenario { return c13writeAbort(true, 0, false, true) }
 	csScenarios["writeabort-arming-fails"] = func() zzmc.Scenario { return c13writeAbort(true, 1, false, false) }
 	csScenarios["writeabort-clearing-fails"] = func() zzmc.Scenario { return c13writeAbort(true, -1, false, false) }
+	csScenarios["writeabort-addrport"] = func() zzmc.Scenario { return c13writeAbort(true, 0, false, false, true) }
+	csScenarios["writeabort-addrport-ctx-writer"] = func() zzmc.Scenario { return c13writeAbort(true, 0, false, true, true) }
 	csScenarios["refcount-udp"] = c13refcount
 }
 
@@ -139,7 +142,23 @@ func (f *fakeBottom) LocalAddr() net.Addr             { return &net.UDPAddr{IP: 
 func (f *fakeBottom) SetDeadline(time.Time) error     { return nil }
 func (f *fakeBottom) SetReadDeadline(time.Time) error { return nil }
 
-func c13writeAbort(block bool, failNth int, twoAborts, ctxWriter bool) zzmc.Scenario {
+// fakeBottomAP is the same socket offering netip.AddrPort I/O (what a *net.UDPConn is adapted to).
+type fakeBottomAP struct{ *fakeBottom }
+
+func (f fakeBottomAP) ReadFromAddrPort(b []byte) (int, netip.AddrPort, error) {
+	n, a, err := f.fakeBottom.ReadFrom(b)
+	if err != nil {
+		return n, netip.AddrPort{}, err
+	}
+
+	return n, a.(*net.UDPAddr).AddrPort(), nil //nolint:forcetypeassert
+}
+
+func (f fakeBottomAP) WriteToAddrPort(b []byte, a netip.AddrPort) (int, error) {
+	return f.fakeBottom.WriteTo(b, net.UDPAddrFromAddrPort(a))
+}
+
+func c13writeAbort(block bool, failNth int, twoAborts, ctxWriter bool, addrPort ...bool) zzmc.Scenario {
 	return zzmc.Scenario{
 		Name:     "writeabort",
 		Focus:    []string{"udp_mux.go"},
@@ -152,13 +171,18 @@ func c13writeAbort(block bool, failNth int, twoAborts, ctxWriter bool) zzmc.Scen
 			if failNth < 0 {
 				fb.failClear = true
 			}
-			m := NewUDPMuxDefault(UDPMuxParams{UDPConn: fb, Logger: nopLogger{}})
+			var sock net.PacketConn = fb
+			ap := len(addrPort) > 0 && addrPort[0]
+			if ap {
+				sock = fakeBottomAP{fb}
+			}
+			m := NewUDPMuxDefault(UDPMuxParams{UDPConn: sock, Logger: nopLogger{}})
 			c1, err := m.GetConn("u1", fb.LocalAddr())
 			if err != nil {
 				panic(err)
 			}
 			c2, _ := m.GetConn("u2", fb.LocalAddr())
-			dst := &net.UDPAddr{IP: net.ParseIP("10.0.0.9"), Port: 9}
+			dst := &net.UDPAddr{IP: net.ParseIP("10.0.0.9").To4(), Port: 9}
 			var e1, e2, ea, ea2 error
 			var d1, d2 bool
 			ctx, cancel := context.WithCancel(context.Background())
@@ -168,7 +192,14 @@ func c13writeAbort(block bool, failNth int, twoAborts, ctxWriter bool) zzmc.Scen
 			} else {
 				s.Go("W1", func() { _, e1 = c1.WriteTo([]byte("a"), dst); d1 = true })
 			}
-			s.Go("W2", func() { _, e2 = c2.WriteTo([]byte("b"), dst); d2 = true })
+			if ap { // the second writer uses the AddrPort path of its handle
+				s.Go("W2", func() {
+					_, e2 = c2.(AddrPortReaderWriter).WriteToAddrPort([]byte("b"), dst.AddrPort()) //nolint:forcetypeassert
+					d2 = true
+				})
+			} else {
+				s.Go("W2", func() { _, e2 = c2.WriteTo([]byte("b"), dst); d2 = true })
+			}
 			s.Go("A", func() { ea = c1.(writeAborter).abortWrite() }) //nolint:forcetypeassert
 			if twoAborts {
 				s.Go("A2", func() { ea2 = c2.(writeAborter).abortWrite() }) //nolint:forcetypeassert
@@ -348,5 +379,7 @@ func checkC13(c *runCtx) {
 	csExplore(c, "writeabort-ctx-writer", b, dl, nil)
 	csExplore(c, "writeabort-arming-fails", b, dl, nil)
 	csExplore(c, "writeabort-clearing-fails", b, dl, s14)
+	csExplore(c, "writeabort-addrport", b, dl, nil)
+	csExplore(c, "writeabort-addrport-ctx-writer", b, dl, nil)
 	csExplore(c, "refcount-udp", b, dl, nil)
 }
